@@ -15,6 +15,8 @@ func init() { register("C08", checkC08) }
 
 func checkC08(c *Ctx) {
 	r := c.R
+	r.Rule("R03.1", "(shared with C03) no admitted record is lost: the routing decision function equals the documented one (an emptied per-level list does not hide the class writers)")
+	r.Rule("R10.1", "(shared with C10) no shared mutable configuration between loggers: a child never shares its parent's writer set or per-level map")
 	r.Rule("R13.2", "(shared with C13) no record nobody logged: the sink reports a failed Write at most once, at the severity its own recursion guard tests, through a gated entry point of the same logger")
 	r.Rule("R08.7", "lock discipline: every mutex the package acquires is released on every path to a return, and while it is held no call is made that can come back to an acquisition of the same mutex (the sink logs its own failure diagnostic through the same logger); on the pinned default build the package acquires none")
 	r.Rule("R08.1", "shared-write rule (race freedom by ownership): every store on the logging path (field store, element store, map update, store through a pointer, package-variable store) targets memory owned by the call: the pooled PrintCtx of this call and what hangs off it, the pooled per-call attribute slice, locals and fresh allocations. A store whose target is a field of a logger or writer set, a package-level variable (other than the atomic size hint), or of unknown provenance is a violation")
@@ -47,6 +49,9 @@ func checkC08(c *Ctx) {
 		c13Fanout(c, p, m)
 		lockDiscipline(c, p, "R08.7")
 		c13Reaction(c, p, m)
+		c03Routing(c, p, m)
+		c10Frames(c, p, m)
+		c10Creation(c, p, m)
 	}
 	r.Rule("R08.5", "the record of exactly one call: in each output mode no field of the pooled encoder is read before the current call wrote it (engine E10, shared with R09.1), so nothing another call formatted can appear in this call's payload")
 	r.Rule("R02.1", "(shared with C02) at most one emission per call")
